@@ -115,6 +115,39 @@ CLAIMED["C05"] = dict(
         "decided here. One open known finding (empty blob replayed as a delete); one defect repaired (tombstone of an absent key counted on reload). " + TRUST,
    design="DESIGN.md §4 C05")
 
+CLAIMED["C36"] = dict(
+   text="Proof-level kernel: Replicator.Replicate and the event function of filer.sync (genProcessFunction's closure, buildKey) are executed symbolically with the "
+        "sink abstracted (name, target directory and incremental flag as ghost functions of the sink; DeleteEntry/CreateEntry/UpdateEntry counted with their "
+        "arguments recorded): the sink is touched only for a path inside the source directory - containment on path boundaries, as computed by the verified "
+        "util.IsPathInDir, so a sibling whose name starts with the directory's name is outside -, never for a change from the other cluster when the sink is a "
+        "filer, deletions only delete and creations only create, and every key (and the new parent directory of a move) handed to the sink is the target "
+        "directory joined with the part of the source path below the source directory (SMT theory of strings).",
+   note="filepath.Join is an uninterpreted function of its elements; the mapping for incremental sinks (date element) and the sinks themselves (local, filer, "
+        "cloud) are not decided here; assumed: sink methods change only the sink. One defect repaired (prefix test instead of path containment). " + TRUST,
+   design="DESIGN.md §4 C36")
+
+CLAIMED["C34"] = dict(
+   text="Proof-level kernel of the decision: VolumeServer.maybeCheckJwtAuthorization succeeds, when a signing key for the kind of access is configured, only for a request "
+        "that carries a token which verifies under exactly that key (write key for writes, read key for reads) and whose file id claim equals volume id, comma, file id "
+        "without the sub-file suffix (SMT theory of strings; strings.LastIndex axiomatised); the key function DecodeJwt hands to the jwt library releases the key only "
+        "for HMAC tokens; guard obligations on the real PostHandler, DeleteHandler and GetOrHeadHandler (everything else abstracted): the store and the replicated "
+        "write/delete are reached only after that check returned true for the access kind and for the volume id string the request names.",
+   note="The jwt library is abstract (ghost functions: token carried by the request, 'token verifies under key', file id claim): signature, expiry and not-before checks "
+        "inside the library, and how embedded claim types are validated, are assumed; the handlers are abstracted (module calls opaque, memory safety not checked, callee "
+        "preconditions assumed), so only the order of calls is proved there. " + TRUST,
+   design="DESIGN.md §4 C34")
+
+CLAIMED["C24"] = dict(
+   text="Proof-level kernel of what the embedded stores persist: EntryAttributeToPb / PbToEntryAttribute, Entry.ToExistingProtoEntry / FromPbEntryToExistingEntry meet "
+        "field-by-field contracts (every attribute, chunk list, extended attributes, hard link id and counter, inline content, remote info; checked frames), and a lemma "
+        "that runs the two real functions back to back proves the round trip for every field (times at whole seconds); BeforeEntrySerialization / "
+        "AfterEntryDeserialization are verified with inductive loop invariants for chunk lists of any length: every parseable chunk file id becomes its parsed "
+        "object and is rebuilt from it, everything else is left alone; ToFileIdObject / toFileIdString / NewFileId against the abstract file id codec.",
+   note="Assumed (libraries): protobuf Marshal/Unmarshal, gzip (MaybeGzipData / MaybeDecompressData) and leveldb return what they were given; the textual file id codec "
+        "(hex / decimal) is abstract with the assumption parse(format(x)) = x; chunk lists hold distinct non-nil chunks (precondition). The store-specific key "
+        "layout and listing code of leveldb/leveldb2/leveldb3 are not decided here. " + TRUST,
+   design="DESIGN.md §4 C24")
+
 NA = {
  "C03":"crash-point property over byte-level truncation of two persistent files; no per-function contract within reach decides it (DESIGN §4 C03)",
  "C10":"needs inductive tree predicates and cardinality reasoning over interface-typed nodes in pointer maps with randomised picking (DESIGN §4 C10)",
